@@ -62,7 +62,7 @@ pub struct Outcome {
     pub sim_time_ms: u64,
 }
 
-fn uri_of(w: &World, p: usize) -> String {
+pub(crate) fn uri_of(w: &World, p: usize) -> String {
     format!("file://{}", w.abs(PATHS[p % PATHS.len()].rel).display())
 }
 
@@ -70,18 +70,18 @@ fn notification(method: &str, params: Value) -> lsp_server::Notification {
     lsp_server::Notification { method: method.to_string(), params }
 }
 
-fn did_open(w: &World, p: usize, text: &str) -> lsp_server::Notification {
+pub(crate) fn did_open(w: &World, p: usize, text: &str) -> lsp_server::Notification {
     notification("textDocument/didOpen", json!({"textDocument": {"uri": uri_of(w, p), "languageId": "typescriptreact", "version": 1, "text": text}}))
 }
-fn did_change(w: &World, p: usize, text: &str) -> lsp_server::Notification {
+pub(crate) fn did_change(w: &World, p: usize, text: &str) -> lsp_server::Notification {
     notification("textDocument/didChange", json!({"textDocument": {"uri": uri_of(w, p), "version": 2}, "contentChanges": [{"text": text}]}))
 }
-fn did_close(w: &World, p: usize) -> lsp_server::Notification {
+pub(crate) fn did_close(w: &World, p: usize) -> lsp_server::Notification {
     notification("textDocument/didClose", json!({"textDocument": {"uri": uri_of(w, p)}}))
 }
 
 /// (line, character) of a seeded offset inside `text`, biased to the inside of iso literals.
-fn position_in(text: &str, seed: u32) -> (u32, u32) {
+pub(crate) fn position_in(text: &str, seed: u32) -> (u32, u32) {
     if text.is_empty() {
         return (0, 0);
     }
@@ -109,7 +109,7 @@ fn position_in(text: &str, seed: u32) -> (u32, u32) {
     (line, col)
 }
 
-fn request(kind: &ReqKind, uri: &str, pos: (u32, u32)) -> lsp_server::Request {
+pub(crate) fn request(kind: &ReqKind, uri: &str, pos: (u32, u32)) -> lsp_server::Request {
     let td = json!({"uri": uri});
     let position = json!({"line": pos.0, "character": pos.1});
     let (method, params) = match kind {
@@ -122,7 +122,7 @@ fn request(kind: &ReqKind, uri: &str, pos: (u32, u32)) -> lsp_server::Request {
 }
 
 /// The response as comparable JSON; a panic inside the handler is its own outcome.
-fn ask(state: &LspState<Profile>, req: lsp_server::Request) -> Value {
+pub(crate) fn ask(state: &LspState<Profile>, req: lsp_server::Request) -> Value {
     match catch_unwind(AssertUnwindSafe(|| dispatch_request(req, state))) {
         Ok(resp) => json!({"result": resp.result, "error": resp.error.map(|e| json!({"code": e.code, "message": e.message}))}),
         Err(_) => json!({"panic": true}),
@@ -130,7 +130,7 @@ fn ask(state: &LspState<Profile>, req: lsp_server::Request) -> Value {
 }
 
 /// Effective diagnostics per URI after applying every publishDiagnostics (empty == absent).
-fn apply_published(rx: &crossbeam::channel::Receiver<lsp_server::Message>, map: &mut BTreeMap<String, Value>) {
+pub(crate) fn apply_published(rx: &crossbeam::channel::Receiver<lsp_server::Message>, map: &mut BTreeMap<String, Value>) {
     while let Ok(msg) = rx.try_recv() {
         if let lsp_server::Message::Notification(n) = msg {
             if n.method == "textDocument/publishDiagnostics" {
@@ -146,12 +146,12 @@ fn apply_published(rx: &crossbeam::channel::Receiver<lsp_server::Message>, map: 
     }
 }
 
-struct FreshAnswers {
-    diagnostics: BTreeMap<String, Value>,
+pub(crate) struct FreshAnswers {
+    pub diagnostics: BTreeMap<String, Value>,
 }
 
 /// Builds a fresh server on the same disk tree and open buffers and lets `f` query it.
-fn with_fresh<R>(w: &World, open: &BTreeMap<usize, String>, f: impl FnOnce(&LspState<Profile>, &FreshAnswers) -> R) -> Option<R> {
+pub(crate) fn with_fresh<R>(w: &World, open: &BTreeMap<usize, String>, f: impl FnOnce(&LspState<Profile>, &FreshAnswers) -> R) -> Option<R> {
     let (config, cwd) = cx::config_for(w);
     let state = State::new(config, cwd).ok()?;
     let (tx, rx) = crossbeam::channel::unbounded();
@@ -171,7 +171,7 @@ fn with_fresh<R>(w: &World, open: &BTreeMap<usize, String>, f: impl FnOnce(&LspS
 /// open buffer's text written over its file - with the same documents open (their text now
 /// equals the disk). Only defined when every open buffer has a file on disk. The files are
 /// restored afterwards; the running server does not look at the disk meanwhile.
-fn with_effective<R>(w: &World, open: &BTreeMap<usize, String>, f: impl FnOnce(&LspState<Profile>, &FreshAnswers) -> R) -> Option<R> {
+pub(crate) fn with_effective<R>(w: &World, open: &BTreeMap<usize, String>, f: impl FnOnce(&LspState<Profile>, &FreshAnswers) -> R) -> Option<R> {
     if open.is_empty() || !open.keys().all(|p| w.abs(PATHS[*p].rel).is_file()) {
         return None;
     }
@@ -411,7 +411,7 @@ pub fn run(case: &LspCase, tag: u64) -> Outcome {
     out
 }
 
-fn session_event(w: &World, op: &EdOp) -> Vec<SourceFileEvent> {
+pub(crate) fn session_event(w: &World, op: &EdOp) -> Vec<SourceFileEvent> {
     use isograph_compiler::watch::{ChangedFileKind, SourceEventKind};
     match op {
         EdOp::Write(p, _) => vec![(SourceEventKind::CreateOrModify(w.abs(PATHS[*p % PATHS.len()].rel)), ChangedFileKind::JavaScriptSourceFile)],
